@@ -67,10 +67,10 @@
     else if (w < 7) { op.name = "meet_assign"; op.ps = [](PS& x, const PS& y) { x.meet_assign(y); }; op.d = [](D& x, const D& y) { x.intersection_assign(y); }; }
     else { op.name = "time_elapse_assign"; op.ps = [](PS& x, const PS& y) { x.time_elapse_assign(y); }; op.d = [](D& x, const D& y) { x.time_elapse_assign(y); }; }
     S.op = op.name;
-    Un E; if (!expected_pairwise(op, elems(A), elems(B), E)) return;
+    Un E; std::string bcls; if (!expected_pairwise(op, elems(A), elems(B), E, &bcls)) return;
     tr(pre + "." + op.name + "(#" + std::to_string(bi) + ")"); note(C, op.name, A, UA, state_word(C, B, UB) + (ai == bi ? "|alias" : "")); S.changed.insert(ai);
     Un R; if (!apply_binary(C, ai, bi, op.name, op.ps, R)) return;
-    if (check_op(op.name, n, E, R, ai == bi ? "alias" : "") == 0) return;
+    if (check_op(op.name, n, E, R, std::string(ai == bi ? "alias" : "") + (bcls.empty() ? "" : (ai == bi ? "-" : "") + bcls)) == 0) return;
     if (op.name != "time_elapse_assign") {   // the meet is exact in every domain: also check against the conjunction of the shadows
       if (check_op(op.name, n, meets(UA, UB), R, ai == bi ? "alias-exact" : "exact") == 0) return;
     }
@@ -394,15 +394,16 @@
     if (coin(30)) {
       if (UA.size() * UB.size() > 12) { hx::count("skipped.big"); return; }
       S.op = "concatenate_assign"; tr(pre + ".tmp.concatenate_assign(#" + std::to_string(bi) + ")"); note(C, S.op, A, UA, ai == bi ? "alias" : "");
-      std::vector<D> ea = elems(A), eb = elems(B); Un E;
-      for (size_t i = 0; i < ea.size(); ++i) for (size_t j = 0; j < eb.size(); ++j) { D z(ea[i]); z.concatenate_assign(eb[j]); E.push_back(M::shadow(z, 2 * n)); }
+      std::vector<D> ea = elems(A), eb = elems(B); Un E; std::string bcls;
+      BOp cop; cop.name = S.op; cop.d = [](D& x, const D& y) { x.concatenate_assign(y); };
+      if (!expected_pairwise(cop, ea, eb, E, &bcls)) return;
       if (ai == bi && coin()) {
         PS X(A); std::unique_ptr<PS> Y(deep_copy(A)); T.concatenate_assign(T); X.concatenate_assign(*Y); hx::count("alias_checks");
         std::string k = "C13.pset.alias.concatenate_assign:" + inst();
         if (check_same(k, k, 2 * n, shadow(X), shadow(T), "value of x.op(copy of x)", "value of x.op(x)") == 0) return;
       } else T.concatenate_assign(B);
       checked(); if ((int) T.space_dimension() != 2 * n) { violation(key(S.op, "wrong_dimension"), "space dimension " + std::to_string(T.space_dimension())); return; }
-      Un R = shadow(T); if (check_op(S.op, 2 * n, E, R, ai == bi ? "alias" : "") == 0) return; check_post(S.op, T, R);
+      Un R = shadow(T); if (check_op(S.op, 2 * n, E, R, std::string(ai == bi ? "alias" : "") + (bcls.empty() ? "" : (ai == bi ? "-" : "") + bcls)) == 0) return; check_post(S.op, T, R);
       return;
     }
     UOp op; int tries = 0; while (!make_dimop(op, n) && ++tries < 20) op = UOp(); if (tries >= 20) return;
